@@ -101,7 +101,8 @@ def gen_cfg(rng, prop, tier, allow_big=True):
     thorough = tier == "thorough"
     if prop == "C20":
         family = "node"
-        menu = rng.choice((("HNode", "HSym"), ("HNode", "HAny", "HSym", "HSymMix"), ("HAny", "HSym"), ("HNode", "HSym", "HSymProp"), ("HNodeRO", "HSym"), ("HNodeRO", "HNode", "HSym")))
+        menu = rng.choice((("HNode", "HSym"), ("HNode", "HAny", "HSym", "HSymMix"), ("HAny", "HSym"), ("HNode", "HSym", "HSymProp"), ("HNodeRO", "HSym"), ("HNodeRO", "HNode", "HSym"),
+                           ("PNode", "PSym"), ("PAny", "PNode", "PSym")))  # (the last two: the library's classes exactly as shipped)
     elif prop == "C18":
         family = "node"
         menu = ("HMix",)
@@ -216,6 +217,7 @@ def gen_cfg(rng, prop, tier, allow_big=True):
         hooks = cfg["hooks"]
         nodes = None if rng.random() < 0.4 else sorted(rng.sample(range(n_nodes), rng.randint(1, n_nodes)))
         cfg["persist_spec"] = [[rng.choice(hooks), nodes, rng.choice(cfg["excs"])]]
+    cfg["hook_super"] = rng.random() < 0.5  # the users' hook overrides also call the library's implementation
     return cfg
 
 
@@ -714,6 +716,7 @@ def build_world(cfg, world=None):
     world = world or World(observe_hooks=cfg.get("observe_hooks", False))
     world.hook_reads = tuple(cfg.get("hook_reads") or ())
     world.hook_ret = cfg.get("hook_ret")
+    world.call_super = bool(cfg.get("hook_super"))
     model = ForestModel()
     for i, cls in enumerate(cfg["classes"]):
         t = cfg["targets"][i]
